@@ -492,4 +492,501 @@ theorem transformReqs_fuel {e : Env} {c : Config} {tx : List Mod → Except Err 
     | error err => dsimp only; intro he; cases he; exact this hn
     | ok all => simp
 
+/-! ### `get` never answers `Err.fuel`: one universe, one bound, all three branches -/
+
+/-- the fuel bound of `get` in a universe `U`: per module, three steps, one per module of `U` (the overridden requirement
+lists of the main module are that long at most) and two per requirement -/
+def getBound (rq : Reqs) (U : List Mod) : Nat := 1 + (U.map fun n => 3 + U.length + 2 * deg rq n).sum
+
+theorem edges_length_le (rq' : Reqs) (up : Option (Mod → Option Mod)) (n : Mod) :
+    (edges rq' up n).length ≤ 1 + ((rq'.required n).getD []).length := by
+  simp only [edges, workItem]
+  cases hv : decide (n.ver ≠ .none) <;> cases hr : rq'.required n <;> cases up with
+  | none => simp_all
+  | some f =>
+    cases hf : f n with
+    | none => simp_all
+    | some u =>
+      by_cases hun : u = n <;> simp_all <;> omega
+
+theorem sum_const_ge {α : Type} (l : List α) (x : α) (hx : x ∈ l) (k : Nat) (w : α → Nat) :
+    k ≤ (l.map fun n => k + w n).sum := by
+  induction l with
+  | nil => cases hx
+  | cons a as ih => simp only [List.map_cons, List.sum_cons]; omega
+
+/-- an exploration over requirements overridden at the target by a list `L ⊆ U`, with an upgrade function that stays in
+`U`, does not run out of fuel under `getBound` -/
+theorem buildListWith_override_fuel (rq : Reqs) (up : Option (Mod → Option Mod)) (t : Mod) (L U : List Mod)
+    (ht : t ∈ U) (hL : ∀ m ∈ L, m ∈ U) (hLlen : L.length ≤ U.length + 1 + 2 * deg rq t)
+    (hU : ∀ n ∈ U, ∀ l, rq.required n = some l → ∀ m ∈ l, m ∈ U)
+    (hup : ∀ f, up = some f → ∀ n ∈ U, ∀ m, f n = some m → m ∈ U)
+    (fuel : Nat) (hf : getBound rq U ≤ fuel) :
+    buildListWith fuel (override t L rq) up t ≠ .error .fuel := by
+  have hreq : ∀ n, (override t L rq).required n = if n = t then some L else rq.required n := fun n => rfl
+  have hcl : ∀ n ∈ U, ∀ m ∈ edges (override t L rq) up n, m ∈ U := by
+    intro n hn m hm
+    cases up with
+    | none =>
+      rw [edges_plain] at hm
+      split at hm
+      · rw [hreq] at hm
+        split at hm
+        · exact hL m (by simpa using hm)
+        · cases hr : rq.required n with
+          | none => simp [hr] at hm
+          | some l => simp only [hr, Option.getD_some] at hm; exact hU n hn l hr m hm
+      · cases hm
+    | some f =>
+      rcases (mem_edges_up _ f n m).mp hm with ⟨hfu, _⟩ | ⟨_, r, hr, hmr⟩
+      · exact hup f rfl n hn m hfu
+      · rw [hreq] at hr
+        split at hr
+        · cases hr; exact hL m hmr
+        · exact hU n hn r hr m hmr
+  apply buildListWith_fuel _ up t U ht hcl fuel
+  have hpt : ∀ n ∈ U, 1 + (edges (override t L rq) up n).length ≤ 3 + U.length + 2 * deg rq n := by
+    intro n _
+    have h1 := edges_length_le (override t L rq) up n
+    rw [hreq] at h1
+    split at h1
+    · rename_i hnt
+      subst hnt
+      simp only [Option.getD_some] at h1; omega
+    · unfold deg; omega
+  have := sum_map_le (fun n => 1 + (edges (override t L rq) up n).length) (fun n => 3 + U.length + 2 * deg rq n) U hpt
+  unfold getBound at hf
+  omega
+
+theorem buildList_plain_fuel (rq : Reqs) (t : Mod) (U : List Mod) (ht : t ∈ U)
+    (hU : ∀ n ∈ U, ∀ l, rq.required n = some l → ∀ m ∈ l, m ∈ U) (fuel : Nat) (hf : getBound rq U ≤ fuel) :
+    buildList fuel rq t ≠ .error .fuel := by
+  unfold buildList
+  apply buildListWith_fuel rq .none t U ht (edges_plain_subset rq U hU) fuel
+  have := sum_map_le (fun n => 1 + (edges rq .none n).length) (fun n => 3 + U.length + 2 * deg rq n) U
+    (fun n _ => by have := edges_plain_length_le rq n; omega)
+  unfold getBound at hf
+  omega
+
+/-- a successful exploration lists modules of the universe only, and no more than the universe has -/
+theorem buildListWith_in_universe {fuel : Nat} {rq' : Reqs} {up : Option (Mod → Option Mod)} {t : Mod} {U bl : List Mod}
+    (ht : t ∈ U) (hcl : ∀ n ∈ U, ∀ m ∈ edges rq' up n, m ∈ U) (h : buildListWith fuel rq' up t = .ok bl) :
+    (∀ m ∈ bl, m ∈ U) ∧ bl.length ≤ U.length := by
+  have hreachU : ∀ x, Reach rq' up t x → x ∈ U := by
+    intro x hr
+    induction hr with
+    | root => exact ht
+    | step a b _ hb ih => exact hcl a ih b hb
+  have hsub : ∀ m ∈ bl, m ∈ U := by
+    rintro ⟨p, v⟩ hm
+    exact hreachU _ ((buildListWith_exact h p v).mp hm).2.1
+  exact ⟨hsub, (nodup_of_nodup_paths (buildListWith_nodup h)).length_le_of_subset (fun m hm => hsub m hm)⟩
+
+theorem reqList_get_fuel (rq : Reqs) (t : Mod) (list U : List Mod) (ht : t ∈ U) (hlist : ∀ m ∈ list, m ∈ U)
+    (hlen : list.length ≤ U.length)
+    (hU : ∀ n ∈ U, ∀ l, rq.required n = some l → ∀ m ∈ l, m ∈ U) (fuel : Nat) (hf : getBound rq U ≤ fuel) :
+    reqList fuel rq t list ≠ .error .fuel := by
+  apply reqList_fuel rq t list U ht hlist hU fuel
+  unfold getBound at hf
+  -- |list| ≤ |U| ≤ Σ, and Σ(2+deg) ≤ Σ(3+|U|+2deg): together they need twice the sum; use the slack of `3 + |U|` per node
+  have h4 : (U.map fun n => 2 + deg rq n).sum + U.length ≤ (U.map fun n => 3 + U.length + 2 * deg rq n).sum := by
+    clear hf
+    have : ∀ (V : List Mod) (k : Nat), V.length ≤ k →
+        (V.map fun n => 2 + deg rq n).sum + V.length ≤ (V.map fun n => 3 + k + 2 * deg rq n).sum + 0 := by
+      intro V
+      induction V with
+      | nil => intro k _; simp
+      | cons a as ih =>
+        intro k hk
+        have := ih k (by simp at hk; omega)
+        simp only [List.map_cons, List.sum_cons, List.length_cons] at this ⊢
+        omega
+    have := this U U.length (Nat.le_refl _)
+    omega
+  omega
+
+
+/-- every value of the downgrade's map of maxima is the version of a listed module or the requested version -/
+theorem downMax_lookup_mem (list : List Mod) (d : Mod) (hnd : (list.map (·.path)).Nodup) (p : String) (v : Ver)
+    (h : (downMax list d).lookup p = some v) : (⟨p, v⟩ : Mod) ∈ list ∨ (⟨p, v⟩ : Mod) = d := by
+  have hset : (setSel (listMap list) d.path d.ver).lookup p = some v → (⟨p, v⟩ : Mod) ∈ list ∨ (⟨p, v⟩ : Mod) = d := by
+    intro hl
+    rw [lookup_setSel] at hl
+    split at hl
+    · rename_i hp; cases hl; right; subst hp; rfl
+    · exact Or.inl ((lookup_listMap_some list hnd p v).mp hl)
+  unfold downMax at h
+  split at h
+  · split at h
+    · exact hset h
+    · exact Or.inl ((lookup_listMap_some list hnd p v).mp h)
+  · exact hset h
+
+/-- the candidates the loop `for excluded[r]` moves through stay in the universe -/
+theorem stepDown_in_universe (fuel : Nat) (rq : Reqs) (prev : Mod → Option Mod) (maxv : Sel) (C : Mod → Prop)
+    (hprev : ∀ r p, C r → prev r = some p → p.ver = .none ∨ C p)
+    (hadj : ∀ r p v, C r → prev r = some p → maxv.lookup r.path = some v → C ⟨p.path, v⟩) :
+    ∀ (n : Nat) (st st' : DState) (r r' : Mod), C r →
+      stepDown fuel rq prev maxv n st r = .ok (st', some r') → C r' := by
+  intro n
+  induction n with
+  | zero => intro st st' r r' _ h; simp [stepDown] at h
+  | succ n ih =>
+    intro st st' r r' hr h
+    simp only [stepDown] at h
+    split at h
+    · simp only [Except.ok.injEq, Prod.mk.injEq, Option.some.injEq] at h
+      rw [← h.2]; exact hr
+    · cases hp : prev r with
+      | none => simp [hp] at h
+      | some p =>
+        simp only [hp] at h
+        generalize hp' : (if vmax ((maxv.lookup r.path).getD .root) r.ver ≠ (maxv.lookup r.path).getD .root ∧
+            vmax p.ver ((maxv.lookup r.path).getD .root) ≠ p.ver then (⟨p.path, (maxv.lookup r.path).getD .root⟩ : Mod) else p) = p' at h
+        split at h
+        · cases h
+        · rename_i hne
+          have hp'U : C p' := by
+            split at hp'
+            · rename_i hc
+              subst hp'
+              cases hl : maxv.lookup r.path with
+              | none =>
+                exfalso
+                rw [hl] at hc
+                simp only [Option.getD_none] at hc
+                apply hc.1
+                rw [vmax_eq]
+                have : cmpVersion .root r.ver ≠ .lt := by cases r.ver <;> simp [cmpVersion]
+                simp [this]
+              | some v => simp only [Option.getD_some]; exact hadj r p v hr hp hl
+            · subst hp'
+              rcases hprev r p hr hp with h1 | h1
+              · exact absurd h1 hne
+              · exact h1
+          split at h
+          · cases h
+          · exact ih _ _ _ _ hp'U h
+
+/-- the loop labelled `List` of `mvs.Downgrade` does not run out of fuel, and what it collects stays in the universe -/
+theorem downLoop_fuel (fuel : Nat) (rq : Reqs) (prev : Mod → Option Mod) (maxv : Sel) (U : List Mod)
+    (hU : ∀ n ∈ U, ∀ l, rq.required n = some l → ∀ m ∈ l, m ∈ U)
+    (hf : getBound rq U ≤ fuel)
+    (tp : String)
+    (hprev : ∀ r p, (r ∈ U ∧ r.path ≠ tp) → prev r = some p →
+      p.ver = .none ∨ (p.ver ∈ U.map (·.ver) ∧ cmpVersion p.ver r.ver = .lt ∧ (p ∈ U ∧ p.path ≠ tp)))
+    (hmax : ∀ p v, maxv.lookup p = some v → v ∈ U.map (·.ver))
+    (hadj : ∀ r p v, (r ∈ U ∧ r.path ≠ tp) → prev r = some p → maxv.lookup r.path = some v →
+      ((⟨p.path, v⟩ : Mod) ∈ U ∧ p.path ≠ tp)) :
+    ∀ (list : List Mod) (st : DState) (acc : List Mod), (∀ m ∈ list, m ∈ U ∧ m.path ≠ tp) → (∀ m ∈ acc, m ∈ U) →
+      downLoop fuel rq prev maxv list st acc ≠ .error .fuel ∧
+      ∀ out, downLoop fuel rq prev maxv list st acc = .ok out →
+        (∀ m ∈ out, m ∈ U) ∧ out.length ≤ acc.length + list.length := by
+  have haddf : (U.map fun n => 3 + 2 * deg rq n).sum ≤ fuel := by
+    have := sum_map_le (fun n => 3 + 2 * deg rq n) (fun n => 3 + U.length + 2 * deg rq n) U (fun n _ => by omega)
+    unfold getBound at hf; omega
+  have hlenU : U.length < fuel := by
+    unfold getBound at hf
+    by_cases hne : U = []
+    · subst hne; simp at hf ⊢; omega
+    · obtain ⟨x, hx⟩ := List.exists_mem_of_ne_nil U hne
+      have h2 := sum_const_ge U x hx U.length (fun n => 3 + 2 * deg rq n)
+      have h3 : (U.map fun n => U.length + (3 + 2 * deg rq n)).sum = (U.map fun n => 3 + U.length + 2 * deg rq n).sum := by
+        congr 1; apply List.map_congr_left; intro n _; omega
+      omega
+  intro list
+  induction list with
+  | nil =>
+    intro st acc _ hacc
+    simp only [downLoop]
+    exact ⟨by simp, fun out h => by cases h; exact ⟨hacc, by simp⟩⟩
+  | cons r rest ih =>
+    intro st acc hl hacc
+    have hrU := hl r List.mem_cons_self
+    have hrest : ∀ m ∈ rest, m ∈ U ∧ m.path ≠ tp := fun m hm => hl m (List.mem_cons_of_mem _ hm)
+    simp only [downLoop]
+    have hadd := add_fuel rq maxv U hU fuel haddf st r hrU.1
+    cases ha : add fuel rq maxv st r with
+    | none => rw [ha] at hadd; cases hadd
+    | some st1 =>
+      dsimp only
+      have hsd := stepDown_terminates_on (fun r => r ∈ U ∧ r.path ≠ tp) fuel rq prev maxv (U.map (·.ver))
+        (fun st p hp => add_fuel rq maxv U hU fuel haddf st p hp.1) hprev hmax hadj fuel st1 r hrU
+        (by
+          have : below (U.map (·.ver)) r.ver ≤ (U.map (·.ver)).length := List.length_filter_le _ _
+          simp only [List.length_map] at this; omega)
+      cases hs : stepDown fuel rq prev maxv fuel st1 r with
+      | error err =>
+        dsimp only
+        exact ⟨fun h => by cases h; exact hsd hs, fun out h => by cases h⟩
+      | ok res =>
+        obtain ⟨st2, ro⟩ := res
+        cases ro with
+        | none =>
+          dsimp only
+          obtain ⟨i1, i2⟩ := ih st2 acc hrest hacc
+          exact ⟨i1, fun out h => ⟨(i2 out h).1, by have := (i2 out h).2; simp only [List.length_cons]; omega⟩⟩
+        | some r' =>
+          dsimp only
+          have hr'U := stepDown_in_universe fuel rq prev maxv (fun r => r ∈ U ∧ r.path ≠ tp)
+            (fun r p hr hp => by
+              rcases hprev r p hr hp with h1 | h1
+              · exact Or.inl h1
+              · exact Or.inr h1.2.2) hadj fuel st1 st2 r r' hrU hs
+          obtain ⟨i1, i2⟩ := ih st2 (acc ++ [r']) hrest (by
+            intro m hm
+            rcases List.mem_append.mp hm with h1 | h1
+            · exact hacc m h1
+            · rw [List.mem_singleton.mp h1]; exact hr'U.1)
+          exact ⟨i1, fun out h => ⟨(i2 out h).1, by
+            have := (i2 out h).2
+            simp only [List.length_append, List.length_cons, List.length_nil] at this ⊢; omega⟩⟩
+
+
+theorem override_edges_closed (rq : Reqs) (up : Option (Mod → Option Mod)) (t : Mod) (L U : List Mod)
+    (hL : ∀ m ∈ L, m ∈ U) (hU : ∀ n ∈ U, ∀ l, rq.required n = some l → ∀ m ∈ l, m ∈ U)
+    (hup : ∀ f, up = some f → ∀ n ∈ U, ∀ m, f n = some m → m ∈ U) :
+    ∀ n ∈ U, ∀ m ∈ edges (override t L rq) up n, m ∈ U := by
+  have hreq : ∀ n, (override t L rq).required n = if n = t then some L else rq.required n := fun n => rfl
+  intro n hn m hm
+  cases up with
+  | none =>
+    rw [edges_plain] at hm
+    split at hm
+    · rw [hreq] at hm
+      split at hm
+      · exact hL m (by simpa using hm)
+      · cases hr : rq.required n with
+        | none => simp [hr] at hm
+        | some l => simp only [hr, Option.getD_some] at hm; exact hU n hn l hr m hm
+    · cases hm
+  | some f =>
+    rcases (mem_edges_up _ f n m).mp hm with ⟨hfu, _⟩ | ⟨_, r, hr, hmr⟩
+    · exact hup f rfl n hn m hfu
+    · rw [hreq] at hr
+      split at hr
+      · cases hr; exact hL m hmr
+      · exact hU n hn r hr m hmr
+
+/-- `mvs.Downgrade` does not run out of fuel, and its answer stays in the universe -/
+theorem mvsDowngrade_fuel (fuel : Nat) (rq : Reqs) (prev : Mod → Option Mod) (t d : Mod) (U : List Mod)
+    (ht : t ∈ U) (hd : d ∈ U)
+    (hU : ∀ n ∈ U, ∀ l, rq.required n = some l → ∀ m ∈ l, m ∈ U)
+    (hprev : ∀ r p, r ∈ U → r.path ≠ t.path → prev r = some p → p.ver = .none ∨ (cmpVersion p.ver r.ver = .lt ∧ p ∈ U))
+    (hpath : ∀ r p, prev r = some p → p.path = r.path)
+    (hf : getBound rq U ≤ fuel) :
+    mvsDowngrade fuel rq prev t d ≠ .error .fuel ∧
+    ∀ bld, mvsDowngrade fuel rq prev t d = .ok bld → (∀ m ∈ bld, m ∈ U) ∧ bld.length ≤ U.length := by
+  unfold mvsDowngrade
+  have hfull := buildList_plain_fuel rq t U ht hU fuel hf
+  cases hb : buildList fuel rq t with
+  | error err => dsimp only; exact ⟨fun h => by cases h; exact hfull hb, fun bld h => by cases h⟩
+  | ok full =>
+    dsimp only
+    have hb' := hb
+    unfold buildList at hb'
+    obtain ⟨hfullU, hfulllen⟩ := buildListWith_in_universe ht (edges_plain_subset rq U hU) hb'
+    have hlistU : ∀ m ∈ full.drop 1, m ∈ U := fun m hm => hfullU m (List.mem_of_mem_drop hm)
+    have hlistT : ∀ m ∈ full.drop 1, m.path ≠ t.path := by
+      have hhead := buildListWith_head hb'
+      have hnd := buildListWith_nodup hb'
+      cases full with
+      | nil => intro m hm; cases hm
+      | cons x xs =>
+        simp only [List.take_succ_cons, List.take_zero, List.cons.injEq, and_true] at hhead
+        subst hhead
+        intro m hm hp
+        simp only [List.drop_succ_cons, List.drop_zero] at hm
+        simp only [List.map_cons, List.nodup_cons] at hnd
+        exact hnd.1 (List.mem_map.mpr ⟨m, hm, hp⟩)
+    have hlistnd : ((full.drop 1).map (·.path)).Nodup :=
+      (List.Sublist.map _ (List.drop_sublist 1 full)).nodup (buildListWith_nodup hb')
+    have hlistlen : (full.drop 1).length ≤ U.length := by simp only [List.length_drop]; omega
+    have hmaxU : ∀ p v, (downMax (full.drop 1) d).lookup p = some v → (⟨p, v⟩ : Mod) ∈ U := by
+      intro p v hl
+      rcases downMax_lookup_mem _ d hlistnd p v hl with h1 | h1
+      · exact hlistU _ h1
+      · rw [h1]; exact hd
+    have hloop := downLoop_fuel fuel rq prev (downMax (full.drop 1) d) U hU hf t.path
+      (fun r p hr hp => by
+        rcases hprev r p hr.1 hr.2 hp with h1 | ⟨h1, h2⟩
+        · exact Or.inl h1
+        · exact Or.inr ⟨List.mem_map.mpr ⟨p, h2, rfl⟩, h1, h2, by rw [hpath r p hp]; exact hr.2⟩)
+      (fun p v hl => List.mem_map.mpr ⟨⟨p, v⟩, hmaxU p v hl, rfl⟩)
+      (fun r p v hr hp hl => by rw [hpath r p hp]; exact ⟨hmaxU _ _ hl, hr.2⟩)
+      (full.drop 1) ⟨[], [], []⟩ [t] (fun m hm => ⟨hlistU m hm, hlistT m hm⟩) (fun m hm => by rw [List.mem_singleton.mp hm]; exact ht)
+    unfold downMax at hloop
+    generalize hdl : downLoop fuel rq prev _ (full.drop 1) ⟨[], [], []⟩ [t] = dl at hloop ⊢
+    cases dl with
+    | error err => dsimp only; exact ⟨fun h => by cases h; exact hloop.1 rfl, fun bld h => by cases h⟩
+    | ok downgraded =>
+      dsimp only
+      obtain ⟨hdgU, hdglen⟩ := hloop.2 downgraded rfl
+      have hnoup : ∀ f, (Option.none : Option (Mod → Option Mod)) = some f → ∀ n ∈ U, ∀ m, f n = some m → m ∈ U :=
+        fun f h => nomatch h
+      have hact := buildListWith_override_fuel rq .none t downgraded U ht hdgU
+        (by simp only [List.length_cons, List.length_nil] at hdglen; omega) hU hnoup fuel hf
+      cases ha : buildList fuel (override t downgraded rq) t with
+      | error err => dsimp only; exact ⟨fun h => by cases h; exact hact ha, fun bld h => by cases h⟩
+      | ok actual =>
+        dsimp only
+        have ha' := ha
+        unfold buildList at ha'
+        obtain ⟨hactU, _⟩ := buildListWith_in_universe ht (override_edges_closed rq .none t downgraded U hdgU hU hnoup) ha'
+        have hdg2U : ∀ m ∈ (full.drop 1).filterMap (fun m => ((listMap actual).lookup m.path).map fun v => (⟨m.path, v⟩ : Mod)), m ∈ U := by
+          intro x hx
+          obtain ⟨m, _, hmx⟩ := List.mem_filterMap.mp hx
+          cases hl : (listMap actual).lookup m.path with
+          | none => simp [hl] at hmx
+          | some v =>
+            simp only [hl, Option.map_some, Option.some.injEq] at hmx
+            subst hmx
+            exact hactU _ ((lookup_listMap_some actual (buildListWith_nodup ha') m.path v).mp hl)
+        have hdg2len : ((full.drop 1).filterMap (fun m => ((listMap actual).lookup m.path).map fun v => (⟨m.path, v⟩ : Mod))).length ≤ U.length :=
+          Nat.le_trans (List.length_filterMap_le _ _) hlistlen
+        have hfin := buildListWith_override_fuel rq .none t _ U ht hdg2U (by omega) hU hnoup fuel hf
+        refine ⟨hfin, ?_⟩
+        intro bld hbld
+        unfold buildList at hbld
+        exact buildListWith_in_universe ht (override_edges_closed rq .none t _ U hdg2U hU hnoup) hbld
+
+
+/-! query resolution has no fuel: its errors are never `Err.fuel` -/
+
+theorem resolveRef_nofuel (e : Env) (path ref : String) : resolveRef e path ref ≠ .error .fuel := by
+  unfold resolveRef; split <;> simp
+
+theorem resolveLatest_nofuel (e : Env) (major path : String) : resolveLatest e major path ≠ .error .fuel := by
+  unfold resolveLatest
+  dsimp only
+  split
+  · simp
+  · split
+    · simp
+    · exact resolveRef_nofuel e path e.defaultRef
+
+theorem resolveVersionQuery_nofuel (e : Env) (bl : List Mod) (q : VersionQuery) : resolveVersionQuery e bl q ≠ .error .fuel := by
+  unfold resolveVersionQuery
+  split
+  · simp
+  · dsimp only
+    split
+    · exact resolveLatest_nofuel _ _ _
+    · split
+      · unfold resolveUpgrade
+        have := resolveLatest_nofuel e (splitPathVersion (cleanPath q.path)).2 (cleanPath q.path)
+        split
+        · rename_i err herr; intro h; cases h; exact this herr
+        · split
+          · split <;> simp
+          · simp
+      · split
+        · unfold resolvePatch
+          split
+          · exact resolveLatest_nofuel _ _ _
+          · split <;> simp
+        · have hrange : ∀ m p s, resolveRange e m p s ≠ .error .fuel := by
+            intro m p s
+            unfold resolveRange
+            split
+            · simp
+            · split <;> simp
+          split
+          · exact hrange _ _ _
+          · exact hrange _ _ _
+          · split
+            · exact hrange _ _ _
+            · exact resolveRef_nofuel _ _ _
+          · exact resolveRef_nofuel _ _ _
+
+theorem upFn_closed (u : Mod) (U : List Mod) (hu : u ∈ U) :
+    ∀ f, some (upFn u) = some f → ∀ n ∈ U, ∀ m, f n = some m → m ∈ U := by
+  intro f hf n hn m hm
+  cases hf
+  simp only [upFn] at hm
+  split at hm
+  · rename_i hp
+    cases hm
+    have : (⟨n.path, u.ver⟩ : Mod) = u := by obtain ⟨up, uv⟩ := u; simp only at hp; subst hp; rfl
+    rw [this]; exact hu
+  · cases hm; exact hn
+
+/-- C11, fuel sufficiency of `get` (all three branches): in one finite universe `U` closed under requirements, that
+contains whatever the query can resolve to (with the placeholder `p@none` that `mvs.Upgrade` adds) and what `Previous`
+answers, `get` never answers `Err.fuel` once the fuel reaches `getBound` -/
+theorem get_fuel (fuel : Nat) (e : Env) (prev : Mod → Option Mod) (roots : List Mod) (vq : VersionQuery) (U : List Mod)
+    (hroot : rootMod ∈ U)
+    (hU : ∀ n ∈ U, ∀ l, (dawnReqs e roots).required n = some l → ∀ m ∈ l, m ∈ U)
+    (hres : ∀ bl version, resolveVersionQuery e bl vq = .ok version → version ∈ U ∧ (⟨version.path, .none⟩ : Mod) ∈ U)
+    (hprev : ∀ r p, r ∈ U → r.path ≠ "" → prev r = some p → p.ver = .none ∨ (cmpVersion p.ver r.ver = .lt ∧ p ∈ U))
+    (hpath : ∀ r p, prev r = some p → p.path = r.path)
+    (hf : getBound (dawnReqs e roots) U ≤ fuel) :
+    get fuel e prev roots vq ≠ .error .fuel := by
+  have hrootsU : ∀ m ∈ roots, m ∈ U := fun m hm => hU rootMod hroot roots (by simp [dawnReqs, rootMod]) m hm
+  unfold get
+  dsimp only
+  have hbl := buildList_plain_fuel (dawnReqs e roots) rootMod U hroot hU fuel hf
+  cases hb : buildList fuel (dawnReqs e roots) rootMod with
+  | error err => dsimp only; intro h; cases h; exact hbl hb
+  | ok bl0 =>
+    dsimp only
+    cases hr : resolveVersionQuery e bl0 vq with
+    | error err => dsimp only; intro h; cases h; exact resolveVersionQuery_nofuel e bl0 vq hr
+    | ok version =>
+      dsimp only
+      obtain ⟨hvU, hvnone⟩ := hres bl0 version hr
+      split
+      · simp
+      · split
+        · simp
+        · -- upgrade
+          rw [mvsUpgrade_eq]
+          have hL : ∀ m ∈ upList roots version, m ∈ U := by
+            intro m hm
+            unfold upList at hm
+            split at hm
+            · exact hrootsU m hm
+            · rcases List.mem_append.mp hm with h1 | h1
+              · exact hrootsU m h1
+              · rw [List.mem_singleton.mp h1]; exact hvnone
+          have hLlen : (upList roots version).length ≤ U.length + 1 + 2 * deg (dawnReqs e roots) rootMod := by
+            have : deg (dawnReqs e roots) rootMod = roots.length := by simp [deg, dawnReqs, rootMod]
+            unfold upList
+            split <;> simp <;> omega
+          have hup := buildListWith_override_fuel (dawnReqs e roots) (some (upFn version)) rootMod _ U hroot hL hLlen hU
+            (upFn_closed version U hvU) fuel hf
+          cases hu : buildListWith fuel (override rootMod (upList roots version) (dawnReqs e roots)) (some (upFn version)) rootMod with
+          | error err => dsimp only; intro h; cases h; exact hup hu
+          | ok blu =>
+            dsimp only
+            obtain ⟨hbluU, hblulen⟩ := buildListWith_in_universe hroot
+              (override_edges_closed _ (some (upFn version)) rootMod _ U hL hU (upFn_closed version U hvU)) hu
+            exact reqList_get_fuel _ rootMod blu U hroot hbluU hblulen hU fuel hf
+        · -- downgrade
+          obtain ⟨hd1, hd2⟩ := mvsDowngrade_fuel fuel (dawnReqs e roots) prev rootMod version U hroot hvU hU hprev hpath hf
+          cases hd : mvsDowngrade fuel (dawnReqs e roots) prev rootMod version with
+          | error err => dsimp only; intro h; cases h; exact hd1 hd
+          | ok bld =>
+            dsimp only
+            obtain ⟨hbldU, hbldlen⟩ := hd2 bld hd
+            exact reqList_get_fuel _ rootMod bld U hroot hbldU hbldlen hU fuel hf
+
+theorem previous_path (e : Env) (r p : Mod) (h : previous e r = some p) : p.path = r.path := by
+  unfold previous previousFrom at h
+  split at h
+  · cases h; rfl
+  · split at h
+    · cases h
+    · cases h; rfl
+
+/-- `dawn get`, total: `Get` never answers `Err.fuel` -/
+theorem Get_fuel (fuel : Nat) (e : Env) (c : Config) (q : String) (U : List Mod) (hroot : rootMod ∈ U)
+    (hU : ∀ n ∈ U, ∀ l, (dawnReqs e (c.map (·.2))).required n = some l → ∀ m ∈ l, m ∈ U)
+    (hres : ∀ bl version, resolveVersionQuery e bl (parseVersionQuery q) = .ok version →
+      version ∈ U ∧ (⟨version.path, .none⟩ : Mod) ∈ U)
+    (hprev : ∀ r p, r ∈ U → r.path ≠ "" → previous e r = some p → p.ver = .none ∨ (cmpVersion p.ver r.ver = .lt ∧ p ∈ U))
+    (hf : getBound (dawnReqs e (c.map (·.2))) U ≤ fuel) :
+    Get fuel e c q ≠ .error .fuel :=
+  transformReqs_fuel (get_fuel fuel e (previous e) _ _ U hroot hU hres hprev (previous_path e) hf)
+
 end Dawn.Mvs
